@@ -159,6 +159,10 @@ def main(argv):
     sh.note("wall_s", time.perf_counter() - t0)
     sh.dump(out_path)
     faulthandler.cancel_dump_traceback_later()
+    if sh.notes.get("leaked_threads"):
+        # a leaked non-daemon thread of the code under test would keep this process alive
+        sys.stdout.flush()
+        os._exit(0)
     return 0
 
 
